@@ -896,9 +896,24 @@ func zeroStruct(v ssa.Value) bool {
 	return false
 }
 
-// c09CanvasRefresh: must-overwrite analysis for the decoder's canvases inside NextFrame.
-func c09CanvasRefresh(c *Ctx, p *Program, next *ssa.Function) {
-	recv := next.Params[0]
+// c09CanvasRefresh: must-overwrite analysis for the decoder's canvases inside NextFrame (and the
+// methods of the decoder it calls with the same receiver: a NextFrame split into phases).
+type refreshInfo struct {
+	union map[string]bool                     // canvases completely overwritten somewhere
+	out   map[*ssa.BasicBlock]map[string]bool // must-set at the end of each block
+	exit  map[string]bool                     // must-set at every return that is not an error return
+}
+
+func canvasRefreshOf(fn *ssa.Function, memo map[*ssa.Function]*refreshInfo, depth int) *refreshInfo {
+	if r, ok := memo[fn]; ok {
+		return r
+	}
+	ri := &refreshInfo{union: map[string]bool{}, out: map[*ssa.BasicBlock]map[string]bool{}, exit: map[string]bool{}}
+	memo[fn] = ri
+	if fn.Blocks == nil || len(fn.Params) == 0 || depth > 4 {
+		return ri
+	}
+	recv := fn.Params[0]
 	canvasOf := func(v ssa.Value) string {
 		// load of recv.<field> (pointer to NRGBA), or load of (load recv.<field>).Pix
 		ld, ok := v.(*ssa.UnOp)
@@ -922,8 +937,7 @@ func c09CanvasRefresh(c *Ctx, p *Program, next *ssa.Function) {
 		return ""
 	}
 	gen := map[*ssa.BasicBlock]map[string]bool{}
-	union := map[string]bool{}
-	for _, b := range next.Blocks {
+	for _, b := range fn.Blocks {
 		g := map[string]bool{}
 		for _, in := range b.Instrs {
 			call, ok := in.(*ssa.Call)
@@ -936,29 +950,35 @@ func c09CanvasRefresh(c *Ctx, p *Program, next *ssa.Function) {
 				}
 				continue
 			}
-			if cal := call.Call.StaticCallee(); cal != nil && writesAllPix(cal) {
+			cal := call.Call.StaticCallee()
+			if cal != nil && writesAllPix(cal) {
 				if f := canvasOf(call.Call.Args[0]); f != "" {
 					g[f] = true
+				}
+			}
+			// a method of the decoder called on the same receiver: what it refreshes on all its exits
+			if cal != nil && cal.Blocks != nil && call.Call.Args[0] == ssa.Value(recv) && cal.Signature.Recv() != nil {
+				sub := canvasRefreshOf(cal, memo, depth+1)
+				for f := range sub.exit {
+					g[f] = true
+				}
+				for f := range sub.union {
+					ri.union[f] = true
 				}
 			}
 		}
 		gen[b] = g
 		for f := range g {
-			union[f] = true
+			ri.union[f] = true
 		}
 	}
-	if len(union) == 0 {
-		c.AnchorMissing("R5-canvas-refresh", "complete overwrites of the decoder's canvases in NextFrame")
-		return
-	}
-	// forward must-analysis
-	out := map[*ssa.BasicBlock]map[string]bool{}
+	out := ri.out
 	for changed := true; changed; {
 		changed = false
-		for _, b := range next.Blocks {
+		for _, b := range fn.Blocks {
 			var in map[string]bool
 			first := true
-			if b == next.Blocks[0] {
+			if b == fn.Blocks[0] {
 				in, first = map[string]bool{}, false
 			}
 			for _, pr := range b.Preds {
@@ -991,6 +1011,43 @@ func c09CanvasRefresh(c *Ctx, p *Program, next *ssa.Function) {
 				changed = true
 			}
 		}
+	}
+	firstRet := true
+	for _, b := range fn.Blocks {
+		ret, ok := b.Instrs[len(b.Instrs)-1].(*ssa.Return)
+		if !ok {
+			continue
+		}
+		if len(ret.Results) > 0 {
+			last := ret.Results[len(ret.Results)-1]
+			if isErrorType(last.Type()) {
+				if k, ok := last.(*ssa.Const); !ok || !k.IsNil() {
+					continue // error return
+				}
+			}
+		}
+		if firstRet {
+			for k := range out[b] {
+				ri.exit[k] = true
+			}
+			firstRet = false
+		} else {
+			for k := range ri.exit {
+				if !out[b][k] {
+					delete(ri.exit, k)
+				}
+			}
+		}
+	}
+	return ri
+}
+
+func c09CanvasRefresh(c *Ctx, p *Program, next *ssa.Function) {
+	ri := canvasRefreshOf(next, map[*ssa.Function]*refreshInfo{}, 0)
+	union, out := ri.union, ri.out
+	if len(union) == 0 {
+		c.AnchorMissing("R5-canvas-refresh", "complete overwrites of the decoder's canvases in NextFrame")
+		return
 	}
 	var fields []string
 	for f := range union {
